@@ -91,6 +91,16 @@ pub fn setup(prop: &str, tier: &str, variant: u64) -> Setup {
             p.w_gc = 4;
             p.calls = [10, 4, 3, 6, 12, 2, 1, 5, 4, 2, 10, 8, 1, 5, 2, 1, 3, 4, 2, 2, 0, 0];
         }
+        "C20" => {
+            m.prop = "C20";
+            m.c20 = true;
+            // quotations over text / array ranges and links to map entries, edits inside, at and
+            // outside the boundaries from all replicas
+            p.calls = [14, 3, 2, 2, 10, 1, 2, 6, 8, 3, 8, 6, 1, 3, 0, 0, 1, 1, 0, 0, 9, 4];
+            p.nested = 8;
+            p.subdocs = false;
+            p.keys = 2;
+        }
         "C13" => {
             m.prop = "C13";
             m.c13 = true;
